@@ -28,7 +28,7 @@ CLAIMED = {
  "C16": ("exploration",
    "runtime reference-model monitor (independent simple-schema model over typed Go values vs NewParamValidator/NewHeaderValidator, recycling off and on)",
    "Generated simple-schema definitions x typed Go values of every width are validated by the real validators and by an independent model; verdicts compared online; recorded findings matched by exact emulation only.",
-   "Model in harness/model/simple.go is trusted; []byte, nil elements, empty header strings outside the compared domain; sampled.", "DESIGN.md §4 C16"),
+   "Model in harness/model/simple.go is trusted; nil elements and named types outside the compared domain ([]uint8 slices and empty header strings are inside and meet recorded findings); sampled.", "DESIGN.md §4 C16"),
  "C17": ("exploration",
    "runtime structural oracle on results + single-fault location differential",
    "The error value / Result of real validations is inspected online for well-formedness (nil or 422 composite, message sets equal, no duplicates, names extend the root); separately one fault is planted at a known location and a field-level error with exactly that name is demanded.",
@@ -47,7 +47,7 @@ CLAIMED = {
    "The generator is trusted to break exactly the named rule; sampled.", "DESIGN.md §4 C03"),
  "C07": ("exploration",
    "runtime crash monitor (structurally mutated loadable specifications through SpecValidator.Validate in both modes, child processes, recover)",
-   "Arbitrary structural edits of valid specifications (incl. odd names, null members, dangling and sibling-carrying $ref) that still load are validated in both modes; any panic or process death is a violation.",
+   "Arbitrary structural edits of valid specifications (incl. odd names, null members, dangling and sibling-carrying $ref) that still load are validated in both modes; any panic or process death is a violation (a process death is attributed to the recorded composition-cycle finding only by call site + input class).",
    "Sampled; loads.Analyzed defines 'loads'.", "DESIGN.md §4 C07"),
  "C09": ("exploration",
    "runtime single-fault differential monitor (base / good-value / bad-value twins of one specification through the real SpecValidator)",
@@ -71,8 +71,8 @@ CLAIMED = {
    "The library alone in a fresh process is the oracle; poison is sound by the pool contract; sampled histories.", "DESIGN.md §4 C04"),
  "C05": ("exploration",
    "Go race detector + runtime self-differential monitor + pool hooks (fresh -race process per goroutine/GOMAXPROCS configuration; phase A poison+yield without monitor synchronisation, phase B ownership automaton + hand-off census)",
-   "2..64 goroutines run independent histories (AgainstSchema, recycling validators, Spec on own documents, one shared validator, helpers) while one toggles SetContinueOnErrors; each outcome is compared with its sequential reference; race-detector logs are parsed; cross-goroutine hand-offs of pooled objects are counted as evidence of the interleavings actually seen.",
-   "Sampled schedules only; goroutines kept alive to the end; shared schemas are $ref-free as the property says.", "DESIGN.md §4 C05"),
+   "2..64 goroutines run independent histories (AgainstSchema, recycling validators, Spec on own documents, shared long-lived validators whose outcome includes the recorded schemata, $ref-free schema objects shared between goroutines, helpers) while one toggles SetContinueOnErrors; each outcome is compared with its sequential reference; race-detector logs are parsed; cross-goroutine hand-offs of pooled objects are counted as evidence of the interleavings actually seen.",
+   "Sampled schedules only; goroutines kept alive to the end; shared schemas are $ref-free as the property says; one configuration in nine shares schema objects carrying an id, where race reports whose write is the reference expander's write-back are the recorded finding schema-id-inplace-expansion-race.", "DESIGN.md §4 C05"),
  "C11": ("fault_enumeration",
    "runtime fault injection (panic at the k-th invocation of a caller-supplied format checker, every k up to the measured K; documented invalid-schema panic at 11 placements x 2 entry points) + self-differential follow-up + pool hooks",
    "For each workload the panic-free run measures K checker invocations; for every k=1..K the checker panics at invocation k, the caller recovers, and a 60-call follow-up history (+Spec) is compared call by call with fresh-process references while the ownership automaton watches the pools; same for the invalid-schema panic raised from under every kind of parent.",
